@@ -47,6 +47,9 @@ var coreShapeFns = []shapeFn{
 	{"clientV2", "SetReadyCount"}, {"clientV2", "IsReadyForMessages"},
 	{"clientV2", "SendingMessage"}, {"clientV2", "FinishedMessage"}, {"clientV2", "TimedOutMessage"},
 	{"clientV2", "RequeuedMessage"}, {"clientV2", "StartClose"},
+	{"protocolV2", "NewClient"}, {"Channel", "doPause"}, {"Topic", "doPause"},
+	{"Channel", "popDeferredMessage"}, {"Channel", "pushDeferredMessage"},
+	{"Channel", "addToInFlightPQ"}, {"Channel", "addToDeferredPQ"},
 }
 
 func init() {
